@@ -10,7 +10,14 @@ L2: random and bounded-exhaustive operation histories run on two REAL
     connection (address, peer), received datagram (payload, source), resolve()
     result, every PDU that crossed the link, and full state dumps.
 L3: a reference address table written from the property statement (RefTable)
-    judges the same runs of the real code, independent of the Lean model.
+    judges the same runs of the real code, independent of the Lean model; service
+    discovery is judged on the wire: every SNL PDU that crosses the link is checked
+    (requests only for waiting resolve() calls, every request answered with the
+    address bound under ITS name at that moment or 0, answers in the order owed) and
+    every resolve() must return what the peer answered for its name.
+Operations QQ (several resolve() calls waiting at the same time -> several SDREQ in
+one SNL PDU) and N (a raw access point sends an SNL PDU with arbitrary SDREQ/SDRES
+lists) are in the model, the theorems' alphabet, the tie and the oracle.
 """
 import logging
 
@@ -31,13 +38,17 @@ THEOREMS = ["NfcVerif.C17." + t for t in [
     "spec_addr_unique", "spec_names_live", "spec_bind_rule", "api_bind_rule",
     "spec_close_frees", "api_close_frees",
     "queued_datagram_source", "datagram_end_to_end", "recvfrom_returns", "connect_peer_is_cc_source",
+    "resolve_answers_pointwise", "resolve_answer_independent", "answers_cached_pointwise", "answers_cached_exact",
+    "snl_packing_exact", "snl_requests_one_pdu", "concurrent_requests_queued", "resolve_many_single",
+    "resolve_many_end_to_end_partial", "datagram_peer_filter",
+    "overlong_request_stuck", "resolve_overlong_witness", "resolve_overlong_counterexample",
 ]]
 
 SN = b"urn:nfc:sn:"
 NAMES_VALID = [SN + b"a", SN + b"b", b"urn:nfc:xsn:c.d", SN + b"snep", SN + b"a\n"]
 NAMES_SPECIAL = [SN + b"sdp"]
 NAMES_INVALID = [b"urn:nfc:snep", b"", SN + b"1x", SN, b"urn:nfc:sn:a b", b"URN:nfc:sn:a", SN + b"a\n\n", b"urn:nfc:xxsn:a"]
-PROFILES = ["table", "named", "datagram", "connect", "resolve", "mixed"]
+PROFILES = ["table", "named", "datagram", "connect", "resolve", "discover", "mixed"]
 
 
 def pick_name(rng, wide=False):
@@ -58,19 +69,20 @@ def gen_op(rng, prof, pair):
     socks = pair.socks[x]
     n = len(socks)
     w = {
-        "table":    dict(S=7, B=9, X=2.5, L=0, C=0, A=0, T=0, P=0, R=0, Q=0, M=0, D=0.2, K=0),
-        "named":    dict(S=7, B=9, X=2.5, L=1, C=0, A=0, T=0, P=0, R=0, Q=1, M=0, D=0.2, K=0),
-        "datagram": dict(S=3, B=4, X=1, L=0, C=1, A=0, T=7, P=2, R=6, Q=0, M=5, D=0.2, K=0),
-        "connect":  dict(S=3, B=4, X=2, L=3, C=5, A=5, T=0.3, P=0.3, R=1, Q=1, M=2, D=0.2, K=5),
-        "resolve":  dict(S=3, B=5, X=3, L=1, C=2, A=1, T=0, P=0, R=0, Q=5, M=1, D=0.2, K=1),
-        "mixed":    dict(S=4, B=5, X=2, L=2, C=3, A=3, T=3, P=1, R=3, Q=2, M=3, D=0.2, K=2),
+        "table":    dict(S=7, B=9, X=2.5, L=0, C=0, A=0, T=0, P=0, R=0, Q=0, M=0, D=0.2, K=0, Y=0, N=0),
+        "named":    dict(S=7, B=9, X=2.5, L=1, C=0, A=0, T=0, P=0, R=0, Q=1, M=0, D=0.2, K=0, Y=1, N=0),
+        "datagram": dict(S=3, B=4, X=1, L=0, C=1, A=0, T=7, P=2, R=6, Q=0, M=5, D=0.2, K=0, Y=0, N=0),
+        "connect":  dict(S=3, B=4, X=2, L=3, C=5, A=5, T=0.3, P=0.3, R=1, Q=1, M=2, D=0.2, K=5, Y=0.5, N=0),
+        "resolve":  dict(S=3, B=5, X=3, L=1, C=2, A=1, T=0, P=0, R=0, Q=3, M=2, D=0.2, K=1, Y=4, N=2.5),
+        "discover": dict(S=2, B=6, X=2.5, L=0, C=0, A=0, T=0, P=0, R=0, Q=2, M=3, D=0.2, K=0, Y=6, N=4),
+        "mixed":    dict(S=4, B=5, X=2, L=2, C=3, A=3, T=3, P=1, R=3, Q=1.5, M=3, D=0.2, K=2, Y=1.5, N=1),
     }[prof]
     if n == 0:
         k = "S"
     else:
         ks = list(w)
         k = rng.choices(ks, [w[q] for q in ks])[0]
-    wide = prof == "named"
+    wide = prof == "named" or (prof == "discover" and rng.random() < 0.5)
 
     def pick(pred, p=0.85):
         """index of a socket satisfying pred (with probability p when one exists), else any"""
@@ -87,12 +99,44 @@ def gen_op(rng, prof, pair):
     if k == "S":
         kinds = {"table": ["raw", "ldl", "dlc"], "named": ["raw", "ldl", "dlc"], "datagram": ["ldl", "ldl", "raw", "dlc"],
                  "connect": ["dlc", "dlc", "dlc", "ldl", "raw"], "resolve": ["dlc", "ldl", "raw"],
-                 "mixed": ["raw", "ldl", "dlc", "dlc"]}[prof]
+                 "discover": ["dlc", "ldl", "raw", "raw"], "mixed": ["raw", "ldl", "dlc", "dlc"]}[prof]
         return "S %s %s" % (x, rng.choice(kinds))
     if k == "M":
         return "M %s" % x
     if k == "Q":
         return "Q %s %s" % (x, hx(pick_name(rng, wide)))
+    if k in ("Y", "N"):
+        # names for a multi-request service name lookup: what the peer has bound (so that bound names precede and
+        # follow unbound ones in every order), well-known names, duplicates, unknown and malformed names
+        bound = list(pair.ctl[y].snl) if k == "Y" else list(pair.ctl[y].snl)
+
+        def nm():
+            r = rng.random()
+            if bound and r < 0.45:
+                return rng.choice(bound)
+            if r < 0.6:
+                return rng.choice([SN + b"snep", SN + b"sdp"])
+            return pick_name(rng, wide)
+        r = rng.random()
+        cnt = rng.randrange(2, 6) if r < 0.8 else rng.randrange(9, 15) if r < 0.93 else rng.randrange(0, 2)
+        if k == "Y":
+            names = [nm() for _ in range(cnt)]
+            if names and rng.random() < 0.25:
+                names.append(rng.choice(names))      # two threads ask for the same name
+            return "QQ %s %s" % (x, ",".join(hx(n) for n in names) if names else ".")
+        raws = [i for i, s in enumerate(socks) if kd(s) == "raw" and not s.state.SHUTDOWN]
+        if not raws:
+            return "S %s raw" % x
+        if rng.random() < 0.08:
+            cnt = rng.randrange(30, 45)                  # the answers do not fit one SNL PDU
+        tidpool = rng.choice([[0, 1, 2, 3], [0, 1, 254, 255], list(range(256))])
+        rq = ["%d:%s" % (rng.choice(tidpool), hx(nm())) for _ in range(cnt)]
+        sent = list(pair.ctl[y].sap[1].sent)
+        rs = []
+        for _ in range(rng.choice([0, 0, 0, 1, 2, 3])):
+            t_ = rng.choice(sent) if sent and rng.random() < 0.6 else rng.choice(tidpool)
+            rs.append("%d:%d" % (t_, rng.choice([0, 1, 4, 16, 17, 31, 32, 63, 64, 65, 80, 127, 128, 255, rng.randrange(256)])))
+        return "N %s %d %s %s" % (x, rng.choice(raws), ",".join(rq) if rq else ".", ",".join(rs) if rs else ".")
     if k == "B":
         i = pick(lambda s: s.addr is None, 0.9)
         r = rng.random()
@@ -258,20 +302,72 @@ class Oracle(object):
         self.fail = None           # (key, what)
         self.open = []             # known-open findings seen (key, what)
         self.inflight = {"A": [], "B": []}   # datagrams sent by that side: (dest, src, data)
-        self.resolved = {"A": {}, "B": {}}
-        self.stats = dict(binds=0, closes=0, datagrams=0, by_name=0, resolves=0, frees=0, connected=0, probes=0)
+        self.resolved = {"A": {}, "B": {}}     # name -> address, as the answers seen on the wire tell it (cached for the link lifetime)
+        self.sent = {"A": {}, "B": {}}         # transaction identifier -> name of the requests that side put on the wire
+        self.owed = {"A": [], "B": []}         # answers that side owes for the requests it received, oldest first
+        self.raw_snl = {"A": [], "B": []}      # SNL PDUs queued by raw access points of that side (arbitrary content)
+        self.asked = {"A": [], "B": []}        # names of resolve() calls whose request has not been seen on the wire yet
+        self.stats = dict(binds=0, closes=0, datagrams=0, by_name=0, resolves=0, frees=0, connected=0, probes=0,
+                          sdreq=0, sdres=0, snl_multi=0, snl_bound_then_unbound=0, conc_resolves=0)
         self.pending = {}          # (side, listening socket) -> client sockets whose CONNECT waits there, oldest first
         self.conns = []            # connections made: (client side, client socket, server side, accepted socket, how)
+        self.orphan = {"A": set(), "B": set()}   # addresses at that side a CC is on its way to although the socket that asked is gone
         pair.observer = self.observe
 
     def bad(self, key, what):
         if self.fail is None:
             self.fail = (key, what)
 
+    # service name lookup PDUs crossing the link
+    def observe_snl(self, x, y, q):
+        """x sent the SNL PDU q, y has just dispatched it"""
+        ref, sd = self.ref[y], self.pair.ctl[y].sap[1]
+        rq, rs = [(t, bytes(n)) for t, n in q.sdreq], list(q.sdres)
+        from_raw = (rq, rs) in self.raw_snl[x]
+        if from_raw:
+            self.raw_snl[x].remove((rq, rs))
+        else:
+            # requests of the service discovery component: one per waiting resolve(), identifiers not in use
+            for t, n in rq:
+                if n in self.asked[x]:
+                    self.asked[x].remove(n)
+                else:
+                    self.bad("sdreq-not-asked", "%s sent SDREQ(%d, %r) but no resolve(%r) is waiting" % (x, t, n, n))
+                self.sent[x][t] = n
+            # answers: exactly the ones owed, oldest first
+            k = len(rs)
+            if rs != self.owed[x][:k]:
+                self.bad("sdres-not-owed", "%s sent SDRES %r, the requests it received call for %r (in this order)"
+                         % (x, rs, self.owed[x][:max(k, 1)]))
+            del self.owed[x][:k]
+        # every request is answered with the address bound under ITS name at y, or 0
+        want = [(t, ref.names.get(n, 0)) for t, n in rq]
+        before = self.pair.sdres_before
+        got = list(sd.sdres)
+        if got[:len(before)] != before or got[len(before):] != want:
+            i = next((i for i, (a, b) in enumerate(zip(got[len(before):], want)) if a != b), min(len(got) - len(before), len(want)))
+            self.bad("sdreq-answer-wrong", "SNL with requests %r received at %s: answers queued %r, the names are bound at %r "
+                     "(request %d: %r)" % (rq, y, got[len(before):], want, i, rq[i] if i < len(rq) else None))
+        self.owed[y] += want
+        self.stats["sdreq"] += len(rq)
+        self.stats["sdres"] += len(rs)
+        if len(rq) >= 2:
+            self.stats["snl_multi"] += 1
+            hit = [ref.names.get(n, 0) != 0 for t, n in rq]
+            if any(hit[i] and not all(hit[i + 1:]) for i in range(len(hit))):
+                self.stats["snl_bound_then_unbound"] += 1
+        # the requester stores the answered address under the name it asked with that identifier
+        for t, a in rs:
+            n = self.sent[y].get(t)
+            if n is not None:
+                self.resolved[y][n] = 1 if (a >> 6) & 1 else a & 63
+
     # PDUs crossing the link
     def observe(self, x, y, q, grown):
         ref = self.ref[y]
-        if q.name == "UI":
+        if q.name == "SNL":
+            self.observe_snl(x, y, q)
+        elif q.name == "UI":
             allowed = ref.owner.get(q.dsap, set())
             for i in grown:
                 if i not in allowed:
@@ -284,6 +380,9 @@ class Oracle(object):
                 got = s.recv_queue[-1]
                 if bytes(got.data) != bytes(q.data) or got.ssap != q.ssap:
                     self.bad("datagram-altered", "UI payload/source changed on delivery")
+        elif q.name == "CC":
+            if (q.dsap, q.ssap) in self.orphan[y] and not grown:
+                self.orphan[y].discard((q.dsap, q.ssap))      # nobody was waiting at that address: the answer is gone
         elif q.name == "CONNECT":
             origin = [j for j, c in enumerate(self.pair.socks[x]) if c.addr == q.ssap and c.state.CONNECT]
             for i in grown:
@@ -314,6 +413,18 @@ class Oracle(object):
                         self.bad("connect-missed", "CONNECT to %d did not reach the listening socket %s%d bound there"
                                  % (q.dsap, y, ready[0]))
 
+    def before(self, op):
+        """called before the operation runs: which names will resolve() have to ask the peer for"""
+        t = op.split(" ")
+        if t[0] in ("Q", "QQ"):
+            hs = [t[2]] if t[0] == "Q" else ([] if t[2] == "." else t[2].split(","))
+            self.cached = []        # a call that finds its name in the cache returns that value without waiting
+            for h in hs:
+                n = bytes.fromhex(h) if h != "-" else b""
+                self.cached.append(self.resolved[t[1]].get(n))
+                if n not in self.resolved[t[1]]:
+                    self.asked[t[1]].append(n)
+
     def judge(self, op, out):
         """op: protocol string, out: canonical outcome of the real code (without wire log)"""
         if self.fail is not None:
@@ -328,19 +439,36 @@ class Oracle(object):
         if k == "S":
             ref.kind.append(t[2])
             return
-        if k == "Q":
-            self.stats["resolves"] += 1
-            name = bytes.fromhex(t[2]) if t[2] != "-" else b""
-            y = "B" if x == "A" else "A"
-            if name in self.resolved[x]:
-                want = self.resolved[x][name]       # answers are cached for the lifetime of the link
-            else:
-                want = self.ref[y].names.get(name, 0)
-                self.resolved[x][name] = want
-            if out != "ok %d" % want:
-                self.bad("resolve-wrong", "resolve(%r) at %s gave %r, the peer has the name %s"
-                         % (name, x, out, "at %d" % want if want else "unbound"))
+        if k in ("Q", "QQ"):
+            # the requests were checked when they crossed the link (observe_snl: asked for, answered from the
+            # table of the peer); here: every call returns what the peer answered for ITS name
+            names = [bytes.fromhex(t[2]) if t[2] != "-" else b""] if k == "Q" else \
+                [] if t[2] == "." else [bytes.fromhex(h) if h != "-" else b"" for h in t[2].split(",")]
+            self.stats["resolves"] += len(names)
+            if k == "QQ":
+                self.stats["conc_resolves"] += len(names)
+            if out.startswith("exc "):
+                self.bad("resolve-raises", "resolve of %r at %s raised %s (transaction identifiers free: %d)"
+                         % (names, x, out[4:], len(pair.ctl[x].sap[1].tids)))
+                return
+            sd_ = pair.ctl[x].sap[1]
+            if len(sd_.tids) < 256 and not sd_.sdreq:
+                self.bad("sd-tid-not-returned", "after resolve of %r at %s returned, only %d of the 256 transaction identifiers are "
+                         "free although no request is outstanding" % (names, x, len(sd_.tids)))
+            if self.asked[x]:
+                self.bad("resolve-request-not-sent", "resolve() returned but the request for %r never went out" % (self.asked[x],))
+            want = [c if c is not None else self.resolved[x].get(n) for n, c in zip(names, self.cached)]
+            exp = "ok %d" % want[0] if k == "Q" and want[0] is not None else \
+                "ok [%s]" % ",".join(str(a) for a in want) if k == "QQ" else None
+            if out != exp:
+                y = "B" if x == "A" else "A"
+                self.bad("resolve-wrong", "resolve of %r at %s gave %r, the answers of the peer say %r (its table now: %r)"
+                         % (names, x, out, want, [self.ref[y].names.get(n, 0) for n in names]))
             return
+        if k == "N" and out == "ok true":
+            self.raw_snl[x].append(([(int(e.split(":")[0]), bytes.fromhex(e.split(":")[1]) if e.split(":")[1] != "-" else b"")
+                                     for e in (t[3].split(",") if t[3] != "." else [])],
+                                    [(int(e.split(":")[0]), int(e.split(":")[1])) for e in (t[4].split(",") if t[4] != "." else [])]))
         i = int(t[2])
         sock = pair.socks[x][i]
         was_bound = i in ref.addr
@@ -392,16 +520,18 @@ class Oracle(object):
         if k == "K":
             out, acc = out.split(" & ")
         # operations with an implicit bind
-        if not was_bound and sock.addr is not None and k in ("L", "C", "T", "P", "K"):
+        if not was_bound and sock.addr is not None and k in ("L", "C", "T", "P", "K", "N"):
             a = sock.addr
             if a in ref.owner or not (32 <= a <= 63):
                 self.bad("addr-handed-out-twice", "implicit bind of %s%d returned %d (in use or outside 32..63)" % (x, i, a))
             else:
                 ref.bound(i, a)
         if k == "A" and out.startswith("ok sock "):
-            if self.pending.get((x, i)):
-                self.pending[(x, i)].pop(0)
             _, _, nid, a, peer = out.split(" ")
+            y = "B" if x == "A" else "A"
+            j = self.pending[(x, i)].pop(0) if self.pending.get((x, i)) else None
+            if (j is None or not pair.socks[y][j].state.CONNECT) and peer.isdigit():
+                self.orphan[y].add((int(peer), int(a)))       # the socket that sent this CONNECT no longer waits for the answer
             la = ref.addr.get(i)
             if la is None or int(a) != la:
                 self.bad("accept-wrong-address", "accepted socket has address %s, listener is bound at %s" % (a, la))
@@ -424,12 +554,16 @@ class Oracle(object):
                 ry.bound(nid, la)
                 if peer != str(ref.addr.get(i)):
                     nid = None      # the listener had an older request pending: this accept served another client
+                if served != i and (served is None or not pair.socks[x][served].state.CONNECT) and peer.isdigit():
+                    self.orphan[x].add((int(peer), int(a)))
             if out == "ok":
                 self.stats["connected"] += 1
                 how = "name %r" % bytes.fromhex(t[4]) if t[3] == "n" else "address %s" % t[4]
                 want = ry.names.get(bytes.fromhex(t[4]) if t[4] != "-" else b"") if t[3] == "n" else int(t[4])
                 got, got2 = sock.peer, pair.ctl[x].getpeername(sock)
-                if nid is None or served != i:
+                stale = any(e[0] == sock.addr for e in self.orphan[x])
+                self.orphan[x] = set(e for e in self.orphan[x] if e[0] != sock.addr)
+                if nid is None or served != i or stale:
                     # the CC that completed this connect answers an older request sent from the same address
                     if want is None or got != want:
                         self.open.append(("stale-connect-answer", "connect by %s at %s%d (address %s) was completed by the answer to an "
@@ -439,6 +573,8 @@ class Oracle(object):
                              "the service is bound at %s on the other controller" % (how, got, got2, want))
                 elif nid is not None:
                     self.conns.append((x, i, y, nid, how))
+        if k == "C" and out == "ok":
+            self.orphan[x] = set(e for e in self.orphan[x] if e[0] != sock.addr)
         if k in ("T", "P") and out == "ok true":
             if k == "T":
                 self.inflight[x].append((int(t[4]), ref.addr.get(i), bytes.fromhex(t[3]) if t[3] != "-" else b""))
@@ -460,6 +596,10 @@ class Oracle(object):
             ent = (dst, src, data)
             if ent in self.inflight[y]:
                 self.inflight[y].remove(ent)
+            elif any(e[0] == dst and e[2] == data for e in self.inflight[y]):
+                real = sorted(set(e[1] for e in self.inflight[y] if e[0] == dst and e[2] == data))
+                self.bad("datagram-source-altered", "socket %s%d (bound at %s, peer %s) received %r and reports source %d; the peer sent this "
+                         "datagram to %s only from %s" % (x, i, dst, sock.peer, data, src, dst, real))
             else:
                 self.bad("datagram-not-sent", "socket %s%d (bound at %s) received %r from %d which the peer never sent there "
                          "(or received it twice)" % (x, i, dst, data, src))
@@ -519,25 +659,44 @@ class Oracle(object):
 
 def judged_history(ops_or_gen, rng=None, prof=None, length=0):
     """run a history on the real code with the oracle attached.
-    ops_or_gen: list of operations, or None to generate `length` operations of profile `prof`"""
+    ops_or_gen: list of operations, or None to generate `length` operations of profile `prof`.
+    Never raises: an exception inside the oracle / generator code (e.g. an outcome of nfcpy it cannot parse) becomes
+    the failure `harness-unexpected-exception` of this history."""
     from sims.sap_pair import Pair
     pair = Pair()
     orc = Oracle(pair)
     ops, outs = [], []
     n = len(ops_or_gen) if ops_or_gen is not None else length
-    for j in range(n):
-        op = ops_or_gen[j] if ops_or_gen is not None else gen_op(rng, prof, pair)
-        r = pair.do(op)
-        ops.append(op)
-        outs.append(r)
-        if r == "abort":
-            break
-        orc.judge(op, r.split(" | ")[0])
-    if not ops or ops[-1] != "D":
-        ops.append("D")
-        outs.append(pair.do("D") if (not outs or outs[-1] != "abort") else "skip")
-    if outs[-1] != "skip" and "abort" not in outs:
-        orc.probe()
+    try:
+        for j in range(n):
+            op = ops_or_gen[j] if ops_or_gen is not None else gen_op(rng, prof, pair)
+            orc.before(op)
+            ops.append(op)
+            r = pair.do(op)
+            outs.append(r)
+            if pair.observer_exc is not None:
+                raise pair.observer_exc
+            if r == "abort":
+                break
+            orc.judge(op, r.split(" | ")[0])
+    except Exception as e:  # noqa
+        import traceback
+        where = traceback.extract_tb(e.__traceback__)[-1]
+        orc.bad("harness-unexpected-exception", "%s: %s at %s:%d while handling operation %r (outcome %r)"
+                % (type(e).__name__, e, where.filename.rsplit("/", 1)[-1], where.lineno, ops[-1] if ops else None,
+                   outs[-1] if len(outs) == len(ops) and outs else None))
+        if len(outs) < len(ops):
+            outs.append("exc-in-harness")
+    try:
+        if not ops or ops[-1] != "D":
+            ops.append("D")
+            outs.append(pair.do("D") if (len(outs) < len(ops) and (not outs or outs[-1] != "abort")) else "skip")
+        if outs[-1] != "skip" and "abort" not in outs and orc.fail is None:
+            orc.probe()
+    except Exception as e:  # noqa
+        orc.bad("harness-unexpected-exception", "%s: %s in the final dump / probe" % (type(e).__name__, e))
+        if len(outs) < len(ops):
+            outs.append("exc-in-harness")
     return ops, outs, orc
 
 
@@ -545,6 +704,7 @@ def judged_history(ops_or_gen, rng=None, prof=None, length=0):
 EX_PREFIX = ["S A dlc", "S A raw", "S A ldl", "S A dlc", "S B dlc", "S B ldl", "S B dlc"]
 NA, NB, NSNEP = hx(SN + b"a"), hx(SN + b"b"), hx(SN + b"snep")
 EX_ALPHA = [
+    "QQ B %s,%s" % (NA, NB), "QQ B %s,%s,%s" % (NB, NSNEP, NA),
     "B A 0 n " + NA, "B A 3 n " + NA, "B A 3 n " + NB, "B A 0 n " + NSNEP, "B A 1 a 4", "B A 1 a 16", "B A 2 -",
     "B A 2 a 32", "X A 0", "X A 1", "X A 3", "L A 0 1", "L A 3 1", "A A 0", "A A 3",
     "C B 0 n " + NA, "C B 2 n " + NA, "K B 0 n " + NA + " 0", "K B 2 n " + NA + " 3", "K B 0 a 16 0", "C B 0 n " + NSNEP, "C B 0 a 16", "Q B " + NA, "T B 1 aa 4", "T B 1 bb 32", "R A 1", "R A 2",
@@ -574,7 +734,7 @@ def renumber_ok(ops):
         t = op.split(" ")
         if t[0] == "S":
             n[t[1]] += 1
-        elif t[0] in ("B", "L", "C", "A", "T", "P", "R", "X", "K"):
+        elif t[0] in ("B", "L", "C", "A", "T", "P", "R", "X", "K", "N"):
             if int(t[2]) >= n[t[1]] + 8:      # accepted sockets may add a few
                 return False
     return True
@@ -585,15 +745,19 @@ def run(ck):
     import itertools
     rng = ck.rng
     ck.rule = ("case = one operation history on two coupled real link controllers (socket/bind/listen/connect/accept/"
-               "sendto/raw-send/recvfrom/resolve/close/xfer + state dumps); non-trivial = at least one successful bind and "
-               "one of: close that frees an address, datagram received, CONNECT dispatched, resolve answered, errno "
-               "raised by bind; distinct by hash of the operation list")
+               "sendto/raw-send/recvfrom/resolve/concurrent resolves/raw SNL PDU/close/xfer + state dumps); non-trivial = at "
+               "least one successful bind and one of: close that frees an address, datagram received, CONNECT dispatched, "
+               "resolve answered, errno raised by bind; distinct by hash of the operation list")
     ck.assumptions += [
         "single-threaded execution: a blocking wait of the real API is replaced by running the link until nothing moves "
         "(threads and lock discipline are properties C09/C15)",
         "PDU encode/decode round trip (C11) and aggregation/MIU (C10) are outside: send-agf off, all PDUs fit the MIU",
         "resolve() answers are cached for the lifetime of the link (documented in socket.resolve); the oracle requires "
-        "the first answer to be exact and later answers to repeat it",
+        "every request on the wire to be answered from the peer's table at that moment and every call to return what the wire "
+        "said for its name (a forged SDRES from a raw access point of the peer overwrites the cache: by design of raw sockets)",
+        "several resolve() calls 'at the same time' = the schedule in which every call reaches its wait() before the run loop "
+        "sends the next PDU, executed on one thread (the wait of call i starts call i+1, the last wait runs the link); other "
+        "schedules are sequences of single resolve operations",
         "a connect can only complete when the peer application accepts while the call waits: operation K = connect with the peer "
         "calling accept() inside the wait (model: apiConnectServed, in the driver and the tie, not in the history alphabet of the theorems); "
         "after each history one I PDU is sent over every connection made and must arrive at the accepted socket (real code only)",
@@ -634,8 +798,45 @@ def run(ck):
         ["S A ldl", "S A ldl", "B A 0 a 40", "B A 1 a 41", "S B ldl", "T B 0 0102 41", "T B 0 03 40", "M B", "M B", "R A 1",
          "R A 0", "R A 0", "D"],
     ]
+    NC, NSDP = hx(SN + b"c"), hx(SN + b"sdp")
+    corpus += [
+        # several resolve() calls waiting at the same time: bound name before unbound ones, well-known names, duplicates
+        ["S B dlc", "B B 0 n " + NA, "L B 0 1", "QQ A %s,%s" % (NA, NB), "QQ A %s,%s,%s" % (NC, NSDP, NSNEP), "D"],
+        ["S B dlc", "B B 0 n " + NA, "S B dlc", "B B 1 n " + NSNEP, "QQ A %s,%s,%s,%s,%s,%s" % (NB, NA, NC, NSNEP, NC, NA),
+         "X B 0", "QQ A %s,%s" % (NA, NB), "QQ B %s,%s" % (NSDP, NA), "D"],
+        # raw access point injects a lookup PDU: repeated identifiers, identifier 255, a bound name between unbound ones
+        ["S B ldl", "B B 0 n " + NB, "S A raw", "N A 0 7:%s,7:%s,255:%s,0:-,1:%s ." % (NB, NA, NB, NSDP), "M A", "M B", "D"],
+        # answers spread over two SNL PDUs (more than 32 answers), requests spread over several PDUs (MIU)
+        ["S B dlc", "B B 0 n " + NA, "S A raw",
+         "N A 0 %s ." % ",".join("%d:%s" % (i, [NA, NB, NSNEP][i % 3]) for i in range(40)), "M A", "M B", "M B", "M B", "D"],
+        ["S B dlc", "B B 0 n " + hx(SN + b"s7")] + ["QQ A " + ",".join(hx(SN + b"s%d" % i) for i in range(14)),
+                                                    "QQ A " + ",".join(hx(SN + b"s%d" % i) for i in range(5, 20)), "D"],
+        # an unsolicited / repeated answer for a transaction identifier used before (raw access point at the peer)
+        ["S B dlc", "B B 0 n " + NA, "Q A " + NA, "S B raw", "N B 1 . 0:33,0:80,9:5", "M B", "Q A " + NA, "Q A " + NB, "D"],
+        # transaction identifiers wrap around after 256 lookups
+        ["S B dlc", "B B 0 n " + hx(SN + b"w100"), "S B ldl", "B B 1 n " + hx(SN + b"w258")]
+        + ["Q A " + hx(SN + b"w%d" % i) for i in range(255)]
+        + ["QQ A " + ",".join(hx(SN + b"w%d" % i) for i in range(255, 262)), "D"],
+        ["S B ldl", "B B 0 n " + hx(SN + b"w257")] + ["Q A " + hx(SN + b"w%d" % i) for i in range(259)] + ["D"],
+        # datagram queued before the logical data link socket is connected to another peer: the source stays
+        ["S A ldl", "B A 0 a 40", "S B ldl", "B B 0 a 41", "S B ldl", "B B 1 a 42", "T B 0 aa 40", "M B", "C A 0 a 42", "R A 0",
+         "T B 1 bb 40", "T B 0 cc 40", "M B", "M B", "R A 0", "C A 0 a 41", "D"],
+    ]
     for ops in corpus:
         runs.append(("corpus",) + judged_history(ops))
+
+    # service name lookup with several requests in one PDU: every list of <= 3 (thorough: 4) names over
+    # {bound, bound well-known, sdp, unbound x2, unbound well-known, malformed}, (a) as concurrent resolve()
+    # calls, (b) injected by a raw access point with ascending / repeated transaction identifiers
+    snl_names = [SN + b"a", SN + b"snep", SN + b"sdp", SN + b"b", SN + b"c", b"urn:nfc:xsn:c.d", b"x"]
+    snl_setup = ["S B dlc", "B B 0 n " + hx(snl_names[0]), "S B ldl", "B B 1 n " + hx(snl_names[1]), "S A raw", "B A 0 -"]
+    for d in range(1, (4 if ck.thorough else 3) + 1):
+        for seq in itertools.product(snl_names[:6] if d == 4 else snl_names, repeat=d):
+            hs = [hx(n) for n in seq]
+            runs.append(("snl-lists<=%d" % (4 if ck.thorough else 3),) + judged_history(snl_setup + ["QQ A " + ",".join(hs), "D"]))
+            tids = list(range(d)) if (len(runs) % 3) else [5] * d
+            runs.append(("snl-lists<=%d" % (4 if ck.thorough else 3),) + judged_history(
+                snl_setup + ["N A 0 %s ." % ",".join("%d:%s" % (t_, h) for t_, h in zip(tids, hs)), "M A", "M B", "D"]))
 
     # bounded-exhaustive short histories over a tiny alphabet
     depth = 3 if ck.thorough else 2
@@ -648,7 +849,7 @@ def run(ck):
         runs.append(("alphabet-random",) + judged_history(EX_PREFIX + seq))
 
     # random histories
-    nrand = 8000 if ck.thorough else 1200
+    nrand = 12000 if ck.thorough else 1300
     for j in range(nrand):
         prof = PROFILES[j % len(PROFILES)]
         length = rng.choice([rng.randrange(5, 60), rng.randrange(60, 200), rng.randrange(100, 260) if prof in ("table", "named") else 40])
@@ -657,7 +858,8 @@ def run(ck):
     replies = model.ask_many([";".join(r[1]) for r in runs])
     dis = 0
     nops = 0
-    tot = dict(binds=0, closes=0, datagrams=0, by_name=0, resolves=0, frees=0, connected=0, probes=0)
+    tot = dict(binds=0, closes=0, datagrams=0, by_name=0, resolves=0, frees=0, connected=0, probes=0,
+               sdreq=0, sdres=0, snl_multi=0, snl_bound_then_unbound=0, conc_resolves=0)
     for (bucket, ops, outs, orc), rep in zip(runs, replies):
         mo = rep.split(";")
         nops += len(ops)
@@ -699,6 +901,38 @@ def run(ck):
         ck.count("oracle:" + kk, v)
     ck.notes.append("bounded-exhaustive: all %d-operation histories (depth <= %d) over %d operations after a fixed prefix"
                     % (depth, depth, len(EX_ALPHA)))
+    ck.notes.append("service name lookup: every request list of length <= %d over %d names (bound / well-known bound / sdp / "
+                    "unbound / malformed), once as concurrent resolve() calls and once as an SNL PDU injected by a raw access "
+                    "point; %d SNL PDUs with >= 2 requests crossed the link, %d of them with a bound name before an unbound one"
+                    % (4 if ck.thorough else 3, len(snl_names), tot["snl_multi"], tot["snl_bound_then_unbound"]))
+
+    # a service name whose SDREQ does not fit the link MIU (open finding resolve-overlong-name-hangs): lengths around the
+    # boundary 3 + len(name) <= 128, on the real code; the model agrees (both cut the history: the wait never ends)
+    from sims.sap_pair import Pair
+    for ln in ([124, 125, 126, 127, 200, 255] if ck.thorough else [125, 126, 200]):
+        name = SN + b"x" * (ln - len(SN))
+        ops = ["S B dlc", "B B 0 n " + hx(name), "Q A " + hx(name)]
+        try:
+            pair = Pair()
+            outs = pair.run(ops)
+            sd = pair.ctl["A"].sap[1]
+            stuck = [(t_, n) for t_, n in sd.sdreq if n == name]
+            empty = [w for w in pair.wire if w == "A>SNL.[].[]"]
+            mo = model.ask_many([";".join(ops)])[0].split(";")
+            ck.case(("overlong", ln), True, "overlong-name")
+            if mo != outs:
+                ck.fail("tie:c17-model-vs-llc", "resolve of a %d byte name: model %r, implementation %r" % (ln, mo, outs),
+                        {"history": ";".join(ops)})
+            if outs[1] == "ok 16" and outs[2].split(" | ")[0] != "ok 16":
+                what = ("resolve(%d byte service name) at A does not return although B has the name bound at 16: the request "
+                        "(3 + %d bytes) exceeds the link MIU of 128, ServiceDiscovery.dequeue() rotates it for ever (still queued: %r) "
+                        "and every collect() sends an empty SNL PDU (%d seen); outcome of the single-threaded run: %r"
+                        % (ln, ln, [(t_, len(n)) for t_, n in stuck], len(empty), outs[2][:40]))
+                ck.fail("resolve-overlong-name-hangs" if stuck and outs[2] == "abort" else "resolve-wrong", what,
+                        {"history": ";".join(ops), "name_length": ln})
+        except Exception as e:  # noqa
+            ck.fail("harness-unexpected-exception", "%s: %s in the overlong-name scenario (%d bytes)" % (type(e).__name__, e, ln),
+                    {"history": ";".join(ops)})
 
     # service name format: model predicate vs the real regular expression vs the reference
     import nfc.llcp.llc as llc
